@@ -92,7 +92,7 @@ func (store *Store) DeleteAccountMetadata(ctx context.Context, account, key stri
 				ModelTableExpr(store.GetPrefixedRelationName("accounts")).
 				Set("metadata = metadata - ?", key).
 				// the metadata history trigger dates the new revision with updated_at
-				Set("updated_at = " + store.GetPrefixedRelationName("transaction_date") + "()").
+				Set("updated_at = "+store.GetPrefixedRelationName("transaction_date")+"()").
 				Where("address = ?", account).
 				Where("ledger = ?", store.ledger.Name).
 				Exec(ctx)
